@@ -24,7 +24,7 @@ import (
 
 type c13Case struct {
 	Transport string `json:"transport"` // ws | http
-	Kind      string `json:"kind"`      // unary | notify | sub | reverse | noctx
+	Kind      string `json:"kind"`      // unary | notify | sub | reverse | noctx | cancel_then_panic
 	Payload   string `json:"payload"`   // string | error | nilmap | nilptr | custom | index
 	Siblings  int    `json:"siblings"`  // gated healthy calls in flight on the same client while the panic happens
 	Stream    int    `json:"stream"`    // length of a concurrently running stream (0 = none; ws only)
@@ -157,6 +157,15 @@ func (e *c13Env) run(c c13Case) *Violation {
 			})
 		case "reverse":
 			a = goCall(func() (Result, error) { return cl.Call(context.Background(), tok, Plan{RevBoom: true}) })
+		case "cancel_then_panic":
+			// the caller cancels; the handler's clean-up path panics after its context is done; the caller must
+			// still get the (error) response for its request
+			ctx, cancel := context.WithCancel(context.Background())
+			a = goCall(func() (Result, error) {
+				return cl.Call(ctx, tok, Plan{Gate: true, WatchCtx: true, Panic: c.Payload})
+			})
+			time.Sleep(5 * time.Millisecond)
+			cancel()
 		}
 		if !a.wait(5 * time.Second) {
 			if !h.Alive() {
@@ -183,7 +192,8 @@ func (e *c13Env) run(c c13Case) *Violation {
 			if a.err == nil {
 				return violf("panic-without-error", "handler panicked (%s/%s) but the caller got a nil error and %+v", c.Kind, c.Payload, a.res)
 			}
-			if !strings.Contains(a.err.Error(), "panic") {
+			// (case-insensitive: when the payload's own Error method panics, fmt renders the text as "%!v(PANIC=...)")
+			if !strings.Contains(strings.ToLower(a.err.Error()), "panic") {
 				return violf("panic-not-mentioned", "handler panicked (%s/%s); the caller's error does not mention it: %v", c.Kind, c.Payload, a.err)
 			}
 		}
@@ -233,7 +243,7 @@ func (e *c13Env) run(c c13Case) *Violation {
 	return nil
 }
 
-var c13Payloads = []string{"string", "error", "nilmap", "nilptr", "custom", "index"}
+var c13Payloads = []string{"string", "error", "nilmap", "nilptr", "custom", "index", "nilstringer", "nilerror"}
 
 const c13Rule = "panic payload {string, error, nil-map write, nil dereference, custom struct, index out of range} x call kind {unary, no-context, notification, channel-returning, reverse (panic in the client-side handler)} x 0-4 healthy gated sibling calls and an optional paced stream in progress on the same connection x 1-3 panics in a row x {ws, http}; server hosted in a child process. Complete grid of payload x kind x transport plus rapid-generated mixes. Non-trivial = at least one sibling or stream in progress, or a non-string payload; distinct by descriptor hash"
 
@@ -243,7 +253,7 @@ func TestC13(t *testing.T) {
 	rec := NewRec("C13", c13Rule)
 	defer rec.Finish(t)
 	rec.EnableJournal()
-	rec.RequireClass("kind_unary", "kind_notify", "kind_sub", "kind_reverse", "tr_http", "tr_ws", "with_siblings", "with_stream")
+	rec.RequireClass("kind_cancel_then_panic", "payload_nilstringer", "payload_nilerror", "kind_unary", "kind_notify", "kind_sub", "kind_reverse", "tr_http", "tr_ws", "with_siblings", "with_stream")
 	run := func(ft failer, c c13Case) {
 		cl := []string{"kind_" + c.Kind, "tr_" + c.Transport, "payload_" + c.Payload}
 		if c.Siblings > 0 {
@@ -256,12 +266,12 @@ func TestC13(t *testing.T) {
 	}
 	t.Run("grid", func(t *testing.T) {
 		for _, tr := range []string{"ws", "http"} {
-			for _, k := range []string{"unary", "noctx", "notify", "sub", "reverse"} {
-				if tr == "http" && (k == "sub" || k == "reverse") {
+			for _, k := range []string{"unary", "noctx", "notify", "sub", "reverse", "cancel_then_panic"} {
+				if tr == "http" && (k == "sub" || k == "reverse" || k == "cancel_then_panic") {
 					continue
 				}
 				for i, p := range c13Payloads {
-					if k == "reverse" && i > 0 {
+					if (k == "reverse" || k == "cancel_then_panic") && i > 0 {
 						continue
 					}
 					run(t, c13Case{Transport: tr, Kind: k, Payload: p, Siblings: i % 3, Stream: (i % 2) * 5, Repeat: 1})
@@ -274,7 +284,7 @@ func TestC13(t *testing.T) {
 			Siblings: rapid.IntRange(0, 4).Draw(rt, "siblings"), Stream: rapid.SampledFrom([]int{0, 0, 3, 40}).Draw(rt, "stream"), Repeat: rapid.IntRange(1, 3).Draw(rt, "repeat")}
 		kinds := []string{"unary", "noctx", "notify"}
 		if c.Transport == "ws" {
-			kinds = append(kinds, "sub", "reverse")
+			kinds = append(kinds, "sub", "reverse", "cancel_then_panic")
 		}
 		c.Kind = rapid.SampledFrom(kinds).Draw(rt, "kind")
 		run(rt, c)
